@@ -80,6 +80,15 @@ def through_dotdot(path, on: bool):
     return d / "lnk" / ".." / path.name
 
 
+ODD_NAMES = ["out", "build {x86}", "out_{domain}", "drop{0}", "100%s done %d", "a&b;c", "it's", "$HOME", "~tilde", "[x]*?", "out"]
+
+
+def odd_name(k: int) -> str:
+    """A directory / file name component the caller may legally choose: braces, per-cent signs, blanks, shell and pattern
+    characters.  A path is a path - nothing in it is a format string, a pattern or mark-up."""
+    return ODD_NAMES[k % len(ODD_NAMES)]
+
+
 def num(v: int) -> str:
     """A number as the command line / a configuration file may spell it: the notation (0x.. hex, decimal, 0o.. octal, 0b.. binary)
     is free wherever the tool reads integers with base 0, so it varies with the value."""
